@@ -178,7 +178,7 @@ def hist_suspect(trace, ref_first):
         elif e["g"] == 0 and e["hit"] != 2 and (e["plan"] != e["fplan"] or e["bod"] != e["fbod"]):
             out.append(("T_PlanIndependent", e))
         fc = fresh_class(e["a"])
-        if fc in ref_first and ref_first[fc][0] != e["ref"]:
+        if ref_first is not None and fc in ref_first and ref_first[fc][0] != e["ref"]:
             out.append(("T_FreshFunctional", e))
     return out
 
@@ -203,13 +203,17 @@ def hit_mismatches(r):
     return None
 
 
-def validate_hist(ctx, rows, details, tag):
+def validate_hist(ctx, rows, details, tag, cfg="Trace_PlanCache.cfg"):
     """Returns (#traces accepted by TLC, model hit/miss mismatches)."""
     traces = split_traces(rows)
-    ref_first = {}
-    for t in traces:
-        for e in t[1:]:
-            ref_first.setdefault(fresh_class(e["a"]), (e["ref"], t))
+    ref_first = None
+    if cfg == "Trace_PlanCache.cfg":
+        # (the gated / traced batches take their references from engines with the same option set and a traced response
+        # embeds the subgraph requests, so T_FreshFunctional is not part of their configuration)
+        ref_first = {}
+        for t in traces:
+            for e in t[1:]:
+                ref_first.setdefault(fresh_class(e["a"]), (e["ref"], t))
     clean, suspects = [], []
     for t in traces:
         s = hist_suspect(t, ref_first)
@@ -226,7 +230,7 @@ def validate_hist(ctx, rows, details, tag):
         path = ctx.path("events-%s-clean.ndjson" % tag)
         flat = [e for t, _ in clean for e in t] + [{"ev": "end"}]
         lib.write_ndjson(path, flat)
-        r = ctx.tlc("resolve", "Trace_PlanCache", "Trace_PlanCache.cfg", workers=1, env={"TRACE": path}, timeout=3000,
+        r = ctx.tlc("resolve", "Trace_PlanCache", cfg, workers=1, env={"TRACE": path}, timeout=3000,
                     deadlock=False, count=False, tag="trace-validation-hist-" + tag, heap="12g")
         if r.ok:
             accepted += len(clean)
@@ -253,46 +257,53 @@ def validate_hist(ctx, rows, details, tag):
         groups.setdefault(g, []).append((t, s))
     nrun = 0
     for g, items in groups.items():
+        if nrun >= 24:
+            ctx.notes.append("more than 24 distinct violation signatures; the remaining ones were not validated")
+            break
+        nrun += 1
+        # one TLC run per signature: up to 3 recorded traces with that signature, TLC stops at the first it rejects
+        batch, owner = [], []
         for t, s in items[:3]:
-            if nrun >= 36:
-                break
-            nrun += 1
             inv, e = s[0]
-            batch = list(t)
             if inv == "T_FreshFunctional":
                 first = ref_first[fresh_class(e["a"])][1]
                 if first is not t:
-                    batch = list(first) + batch
-            path = ctx.path("events-%s-suspect-%d.ndjson" % (tag, nrun))
-            lib.write_ndjson(path, batch + [{"ev": "end"}])
-            r = ctx.tlc("resolve", "Trace_PlanCache", "Trace_PlanCache.cfg", workers=1, env={"TRACE": path}, timeout=600,
-                        deadlock=False, count=False, tag="trace-validation-hist-suspect")
-            if r.ok:
-                accepted += 1
-                continue
-            line, what = tlc_failing_line(r)
-            if line is None:
-                print(r.out[-3000:])
-                raise lib.Inconclusive("trace validation failed in an unexpected way: %s" % r.error)
-            ev = batch[line - 1] if 0 < line <= len(batch) else e
-            o = t[0]["o"]
-            shape = SHAPES[ev["a"]["s"]]["name"] if ev.get("a") else "?"
-            key = "%s:%s:%s:%s:O=%d" % (what, t[0]["mode"], shape, "minify" if o & 8 else "nominify", o)
-            d = dkey.get((t[0]["h"], o, t[0]["mode"], ev.get("g"), ev.get("pos")), {})
-            msg = {
-                "T_Transparent": "the response of an engine serving a history differs from the response of a fresh default engine",
-                "T_PlanIndependent": "the plan / subgraph requests that served the request differ from those of a fresh engine with the same options",
-                "T_FreshFunctional": "two requests that are the same operation up to variable names / literals / operation name / fragments got different responses",
-                "T_Model": "the engine model rejects the recorded history",
-                "nonconformance": "the recorded history is not a behaviour of the specification",
-            }.get(what, what)
-            ctx.violation(key, "%s; history %s, options %s (%s run), position %s, request %s" % (
-                msg, t[0]["h"], oname(o), t[0]["mode"], ev.get("pos"), json.dumps(concrete(ev["a"])["q"]) if ev.get("a") else "?"),
-                {"history": [concrete(x["a"]) for x in t[1:] if x["g"] in (0, 1)], "oset": o, "mode": t[0]["mode"],
-                 "failing_position": ev.get("pos"), "event": ev, "detail": d, "invariant": what})
-        rest = len(items) - 3
+                    batch += list(first)
+                    owner += [first] * len(first)
+            batch += list(t)
+            owner += [t] * len(t)
+        path = ctx.path("events-%s-suspect-%d.ndjson" % (tag, nrun))
+        lib.write_ndjson(path, batch + [{"ev": "end"}])
+        r = ctx.tlc("resolve", "Trace_PlanCache", cfg, workers=1, env={"TRACE": path}, timeout=600,
+                    deadlock=False, count=False, tag="trace-validation-hist-suspect")
+        if r.ok:
+            accepted += len(items[:3])
+            continue
+        line, what = tlc_failing_line(r)
+        if line is None or not (0 < line <= len(batch)):
+            print(r.out[-3000:])
+            raise lib.Inconclusive("trace validation failed in an unexpected way: %s" % r.error)
+        ev, t = batch[line - 1], owner[line - 1]
+        o = t[0]["o"]
+        shape = SHAPES[ev["a"]["s"]]["name"] if ev.get("a") else "?"
+        key = "%s:%s:%s:%s:O=%d" % (what, t[0]["mode"], shape, "minify" if o & 8 else "nominify", o)
+        d = dkey.get((t[0]["h"], o, t[0]["mode"], ev.get("g"), ev.get("pos")), {})
+        msg = {
+            "T_Transparent": "the response of an engine serving a history differs from the response of a fresh engine" + (
+                " (request tracing on: the trace in the response extensions belongs to ANOTHER request that used the same cached plan)"
+                if t[0]["mode"] == "traced" else ""),
+            "T_PlanIndependent": "the plan / subgraph requests that served the request differ from those of a fresh engine with the same options",
+            "T_FreshFunctional": "two requests that are the same operation up to variable names / literals / operation name / fragments got different responses",
+            "T_Model": "the engine model rejects the recorded history",
+            "nonconformance": "the recorded history is not a behaviour of the specification",
+        }.get(what, what)
+        ctx.violation(key, "%s; history %s, options %s (%s run), position %s, request %s" % (
+            msg, t[0]["h"], oname(o), t[0]["mode"], ev.get("pos"), json.dumps(concrete(ev["a"])["q"]) if ev.get("a") else "?"),
+            {"history": [concrete(x["a"]) for x in t[1:] if x["g"] in (0, 1) or t[0]["mode"] in ("gated", "traced")], "oset": o, "mode": t[0]["mode"],
+             "failing_position": ev.get("pos"), "event": ev, "detail": d, "invariant": what})
+        rest = len(items) - 1
         if rest > 0:
-            ctx.notes.append("%d more recorded traces with the same signature %s were not validated one by one" % (rest, list(g)))
+            ctx.notes.append("%d more recorded traces with the signature %s (same invariant, shape, minify on/off, mode)" % (rest, list(g)))
     return accepted, mism
 
 
@@ -338,7 +349,7 @@ def validate_det(ctx, rows, by_rid):
         o = rs[0]["o"]
         sig = (name, a["s"], bool(o & 8)) if name != "ResponseIndependentOfOptions" else (name, a["s"], False)
         seen_sig[sig] += 1
-        if seen_sig[sig] > 2 or nrun >= 30:
+        if seen_sig[sig] > 1 or nrun >= 24:
             continue
         nrun += 1
         path = ctx.path("plans-suspect-%d.ndjson" % nrun)
@@ -369,7 +380,7 @@ def validate_det(ctx, rows, by_rid):
                "ResponseIndependentOfOptions": "the same request got different responses under different option sets / runs"}[what]
         ctx.violation(key, "%s; options %s, request %s (process %d run %d vs process %d run %d)" % (
             msg, oname(ev["o"]), json.dumps(by_rid[rid]["q"]), first["proc"], first["run"], ev["proc"], ev["run"]),
-            {"request": by_rid[rid], "oset": ev["o"], "invariant": what, "first": {k2: f1[k2] for k2 in ("proc", "run", "o", "bodies", "resp")},
+            {"request": by_rid[rid], "oset": ev["o"], "osets": sorted({first["o"], ev["o"]}), "invariant": what, "first": {k2: f1[k2] for k2 in ("proc", "run", "o", "bodies", "resp")},
              "other": {k2: f2[k2] for k2 in ("proc", "run", "o", "bodies", "resp")}, "diff": diff, "norm": f1.get("norm")})
     return accepted, len(suspects)
 
@@ -385,13 +396,24 @@ def model_check(ctx, quick):
             raise lib.Inconclusive("sanity: the model with %s must violate Transparent, got %r" % (what, r.error))
 
 
+def generate_pairs(ctx):
+    """length-2 histories (exhaustive) whose second request is served by the plan of the first according to the engine model:
+    the pairs for the forced interleaving A parked / B runs / A resumes"""
+    g2 = ctx.tlc_must_pass("resolve", "Gen_PlanCache", "Gen_PlanCache_2.cfg", timeout=600, deadlock=False, workers=2, tag="gen-hist-2")
+    pairs = {}
+    for b in g2.printed:
+        if b["hit"][1] == 1:
+            pairs[lib.sha(b["h"])] = b["h"]
+    return [pairs[k] for k in sorted(pairs)]
+
+
 def generate(ctx, quick, rng):
     hs = {}
     g3 = ctx.tlc_must_pass("resolve", "Gen_PlanCache", "Gen_PlanCache_3.cfg", timeout=900, deadlock=False, workers=4, tag="gen-hist-3")
     for b in g3.printed:
         hs[lib.sha(b["h"])] = b
     n3 = len(hs)
-    num = 600 if quick else 30000
+    num = 600 if quick else 3000
     g4 = ctx.tlc_must_pass("resolve", "Gen_PlanCache", "Gen_PlanCache_4.cfg", timeout=1800, deadlock=False, workers=1, simulate=num,
                            depth=4, seed=ctx.seed, tag="gen-hist-4-simulate")
     for b in g4.printed:
@@ -399,7 +421,7 @@ def generate(ctx, quick, rng):
     n4 = len(hs) - n3
     n5 = 0
     if not quick:
-        g5 = ctx.tlc_must_pass("resolve", "Gen_PlanCache", "Gen_PlanCache_5.cfg", timeout=1800, deadlock=False, workers=1, simulate=10000,
+        g5 = ctx.tlc_must_pass("resolve", "Gen_PlanCache", "Gen_PlanCache_5.cfg", timeout=1800, deadlock=False, workers=1, simulate=1500,
                                depth=5, seed=ctx.seed + 1, tag="gen-hist-5-simulate")
         for b in g5.printed:
             hs[lib.sha(b["h"])] = b
@@ -422,7 +444,16 @@ def nontrivial(b):
 def run_replay(ctx, binary):
     with open(ctx.replay_in) as f:
         case = json.load(f)["case"]
-    if "history" in case:
+    if case.get("mode") in ("gated", "traced"):
+        pair = {"id": "replay", "o": case["oset"], "traced": case["mode"] == "traced", "a": case["history"][0], "b": case["history"][1]}
+        ip, ep, rp = ctx.path("replay.ndjson"), ctx.path("replay-events.ndjson"), ctx.path("replay-res.ndjson")
+        lib.write_ndjson(ip, [pair])
+        ctx.run_bin(binary, ["-mode", "gated", "-in", ip, "-out", ep, "-res", rp], timeout=600)
+        rows = lib.read_ndjson(ep)
+        acc, _ = validate_hist(ctx, rows, lib.read_ndjson(rp), "replay", cfg="Trace_PlanCache_gated.cfg")
+        ctx.coverage.update({"traces_validated_against_impl": acc, "evaluations": len(rows), "distinct_nontrivial": 1,
+                             "rule": "replay of one forced interleaving (A parked, B runs, A resumes)", "exhaustive": False})
+    elif "history" in case:
         hist = {"id": "replay", "osets": [case["oset"]], "reqs": case["history"]}
         ip, ep, rp = ctx.path("replay.ndjson"), ctx.path("replay-events.ndjson"), ctx.path("replay-res.ndjson")
         lib.write_ndjson(ip, [hist])
@@ -433,7 +464,7 @@ def run_replay(ctx, binary):
                              "rule": "replay of one recorded history", "exhaustive": False})
     else:
         req = dict(case["request"])
-        req.update({"rid": "replay", "osets": [case["oset"]]})
+        req.update({"rid": "replay", "osets": case.get("osets", [case["oset"]])})
         ip = ctx.path("replay.ndjson")
         lib.write_ndjson(ip, [req])
         rows = []
@@ -495,6 +526,23 @@ def run(ctx):
     # ---- 4. validate with TLC
     acc_h, mism = validate_hist(ctx, rows, details, "main")
     ctx.log("TLC accepted %d recorded histories; model hit/miss prediction mismatches: %d" % (acc_h, mism))
+    # ---- forced interleaving on a shared cached plan, without and with request tracing
+    pairs = generate_pairs(ctx)
+    gated_in = []
+    for i, (b, a) in enumerate(pairs):   # A = the second request of the pair, B = the first (it created the plan)
+        for o in ([0, 15] if quick else all_o):
+            for traced in (False, True):
+                gated_in.append({"id": "g%04d-%d-%d" % (i, o, int(traced)), "o": o, "traced": traced, "a": concrete(a), "b": concrete(b)})
+    gp, gep, grp = ctx.path("gated.ndjson"), ctx.path("gated-events.ndjson"), ctx.path("gated-results.ndjson")
+    lib.write_ndjson(gp, gated_in)
+    ctx.run_bin(binary, ["-mode", "gated", "-in", gp, "-out", gep, "-res", grp, "-workers", "8"], timeout=3000)
+    grows = lib.read_ndjson(gep)
+    gdet = lib.read_ndjson(grp)
+    unreal = [d for d in gdet if d.get("unrealised")]
+    if unreal:
+        ctx.notes.append("%d gated pairs could not be realised (%s)" % (len(unreal), unreal[0]["unrealised"]))
+    acc_g, _ = validate_hist(ctx, grows, [d for d in gdet if not d.get("unrealised")], "gated", cfg="Trace_PlanCache_gated.cfg")
+    ctx.log("forced interleavings on a shared plan: %d pairs x option sets x {plain, traced}, %d accepted by TLC" % (len(gated_in), acc_g))
     # ---- determinism: every distinct request x every option set, N fresh plannings, 3 processes
     reqs = {}
     for h in hist_in:
@@ -540,14 +588,15 @@ def run(ctx):
     if raw_ne:
         ctx.notes.append("%d responses equal the reference only after key sorting (member order differs)" % raw_ne)
     ctx.coverage.update({
-        "traces_validated_against_impl": acc_h,
-        "evaluations": nreq + len(det_rows),
+        "traces_validated_against_impl": acc_h + acc_g,
+        "evaluations": nreq + len(det_rows) + 2 * len(gated_in),
         "distinct_nontrivial": len(distinct),
         "rule": "one case = (TLC-generated history of 3-5 requests, option set); executed sequentially and from two goroutines on one real "
                 "engine, every response compared with a fresh default engine; distinct by (concrete requests, option set); non-trivial = "
                 "the history contains two different requests of the same shape (so that a cached plan / pooled planner state is shared)",
         "histories": {"length3_exhaustive": n3, "length4_sampled": n4, "length5_sampled": n5, "replayed": len(hist_in)},
         "requests_executed_in_histories": nreq,
+        "forced_interleavings": {"pairs": len(pairs), "runs": len(gated_in), "accepted_by_tlc": acc_g, "unrealised": len(unreal)},
         "requests_served_from_plan_cache": nhit,
         "model_hit_mismatches": mism,
         "determinism": {"requests": len(det_in), "request_x_option_set": sum(len(r["osets"]) for r in det_in), "fresh_engines_per_process": nfresh, "processes": 3,
